@@ -768,4 +768,25 @@ Section NkNatural.
     intros t n. unfold wf_code. rewrite nk_wf_tree_nat, nk_size_ok_nat, nk_abs_nat, nk_sm_sorted_nat.
     unfold no_lim. rewrite nk_lim_nat. destruct (nn_lim K1 n); reflexivity.
   Qed.
+  Definition nk_mout (x : nnres K1 * Z * nnode K1) : nnres K2 * Z * nnode K2 :=
+    (nk_mres (fst (fst x)), snd (fst x), M (snd x)).
+
+  Lemma nk_run_acc_nat : forall t ops s acc,
+    nn_run_acc K2 c2 t (map nk_mop ops) (nk_mst s) (map nk_mout acc) = map nk_mout (nn_run_acc K1 c1 t ops s acc).
+  Proof.
+    intros t. induction ops as [|op ops IH]; intros s acc.
+    - cbn [nn_run_acc map]. apply nk_rev'_map.
+    - cbn [nn_run_acc map].
+      change (NNSt K2 (st_root K2 (nk_mst s)) (st_path K2 (nk_mst s)) (st_item K2 (nk_mst s)) 0)
+        with (nk_mst (NNSt K1 (st_root K1 s) (st_path K1 s) (st_item K1 s) 0)).
+      rewrite nk_step_nat.
+      destruct (nn_step K1 c1 t op (NNSt K1 (st_root K1 s) (st_path K1 s) (st_item K1 s) 0)) as [r s'].
+      unfold nk_mstep. cbn [fst snd].
+      change ((nk_mres r, st_warn K2 (nk_mst s'), st_root K2 (nk_mst s')) :: map nk_mout acc)
+        with (map nk_mout ((r, st_warn K1 s', st_root K1 s') :: acc)).
+      apply IH.
+  Qed.
+  Lemma nk_run_nat : forall t root ops,
+    nn_run K2 c2 t (M root) (map nk_mop ops) = map nk_mout (nn_run K1 c1 t root ops).
+  Proof. intros t root ops. unfold nn_run. apply (nk_run_acc_nat t ops (nn_init K1 root) []). Qed.
 End NkNatural.
